@@ -716,3 +716,35 @@ theorem inplace_on_result_isolated (g) (h h' h2 : Heap) (op : Op) (r : Nat)
     exact frame_set (frame_append' fr _) hr _
 
 end Darsia.Heap
+
+namespace Darsia.Heap
+
+theorem wf_of_check {h : Heap} (hc : wfCheck h = true) : WF h := by
+  intro a v hv b hb
+  simp only [wfCheck, List.all_eq_true] at hc
+  have := hc v (List.mem_of_getElem? hv)
+  simp only [List.all_eq_true, decide_eq_true_eq] at this
+  exact this b hb
+
+theorem typed_of_check {h : Heap} (hc : typedCheck h = true) : Typed h := by
+  simp only [typedCheck, List.all_eq_true] at hc
+  constructor
+  · intro a r hv
+    have := hc _ (List.mem_of_getElem? hv)
+    simp only [Bool.and_eq_true, beq_iff_eq] at this
+    obtain ⟨h1, h2⟩ := this
+    constructor
+    · cases hd : h[r.date]? with
+      | none => simp [hd] at h1
+      | some v => simp [hd] at h1; exact ⟨v, rfl, h1⟩
+    · cases hd : h[r.time]? with
+      | none => simp [hd] at h2
+      | some v => simp [hd] at h2; exact ⟨v, rfl, h2⟩
+  · intro a b sh idx hv
+    have := hc _ (List.mem_of_getElem? hv)
+    simp only at this
+    split at this
+    · rename_i s d hb; exact ⟨s, d, hb⟩
+    · cases this
+
+end Darsia.Heap
